@@ -5,6 +5,7 @@ import (
 	"errors"
 	"fmt"
 	"sort"
+	"strings"
 	"sync"
 	"testing/synctest"
 	"time"
@@ -54,6 +55,9 @@ type parkedCall struct {
 	// straggler: overtaken by a cancellation, but "already answered": stays
 	// schedulable and completes (late) whenever the tape releases it
 	straggler bool
+	// blockedAt: lock epoch in which this goroutine's TryLock failed (-1: not a
+	// blocked lock waiter). It is schedulable again once some lock was released.
+	blockedAt int
 }
 
 // releaseMsg: err != nil - the call fails without reaching storage; late - the
@@ -73,9 +77,12 @@ type Sched struct {
 	tape *Tape
 
 	// plan
-	FaultAt     map[int]FaultKind // 1-based index of released call -> fault
-	CancelAfter int               // cancel request 0 after this many released calls (-1: never)
-	Cancels     []context.CancelFunc
+	FaultAt       map[int]FaultKind // 1-based index of released call -> fault
+	CancelAfter   int               // cancel request 0 after this many released calls (-1: never)
+	LockSites     string            // substring of the simlock sites that are scheduling points ("" none)
+	lockEpoch     int
+	LockContended int
+	Cancels       []context.CancelFunc
 
 	// state
 	Released        int
@@ -123,7 +130,7 @@ func (s *Sched) Enter(ctx context.Context, op, key string) (error, bool) {
 		s.mu.Unlock()
 		return err, false
 	}
-	p := &parkedCall{key: key, op: op, ch: make(chan releaseMsg), req: reqOf(ctx), ctx: ctx}
+	p := &parkedCall{key: key, op: op, ch: make(chan releaseMsg), req: reqOf(ctx), ctx: ctx, blockedAt: -1}
 	s.mu.Lock()
 	p.seq = s.arrivals
 	s.arrivals++
@@ -131,6 +138,47 @@ func (s *Sched) Enter(ctx context.Context, op, key string) (error, bool) {
 	s.mu.Unlock()
 	m := <-p.ch
 	return m.err, m.late
+}
+
+// AcquireLock is the simlock hook of tier E/T: the goroutine parks like a storage
+// call before it tries the lock; if the lock is held it is set aside until some
+// lock has been released. Sites that do not match LockSites are not scheduled.
+func (s *Sched) AcquireLock(site string, try func() bool, lock func()) {
+	if s.LockSites == "" || !strings.Contains(site, s.LockSites) {
+		lock()
+		return
+	}
+	s.mu.Lock()
+	rank := 0
+	for _, q := range s.parked {
+		if q.op == "lock" {
+			rank++
+		}
+	}
+	s.mu.Unlock()
+	key := fmt.Sprintf("lock %s #%d", site, rank)
+	_, _ = s.Enter(context.Background(), "lock", key)
+	for !try() {
+		p := &parkedCall{key: key + " (held)", op: "lockwait", ch: make(chan releaseMsg), ctx: context.Background()}
+		s.mu.Lock()
+		p.blockedAt = s.lockEpoch
+		p.seq = s.arrivals
+		s.arrivals++
+		s.parked = append(s.parked, p)
+		s.LockContended++
+		s.mu.Unlock()
+		<-p.ch
+	}
+}
+
+// LockReleased is the other half of the hook.
+func (s *Sched) LockReleased(site string) {
+	if s.LockSites == "" || !strings.Contains(site, s.LockSites) {
+		return
+	}
+	s.mu.Lock()
+	s.lockEpoch++
+	s.mu.Unlock()
 }
 
 type reqKey struct{}
@@ -215,6 +263,23 @@ func (s *Sched) Drive(done func() bool, maxSteps int) DriveOutcome {
 		P := s.snapshot()
 		if s.flushZombies(P) {
 			continue
+		}
+		if s.LockSites != "" {
+			// lock waiters whose TryLock failed stay aside until a lock is released
+			s.mu.Lock()
+			ep := s.lockEpoch
+			s.mu.Unlock()
+			Q := P[:0:0]
+			for _, p := range P {
+				if p.blockedAt < 0 || p.blockedAt != ep {
+					Q = append(Q, p)
+				}
+			}
+			if len(Q) == 0 && len(P) > 0 {
+				s.Trace = append(s.Trace, "DEADLOCK: every parked goroutine waits for a held lock")
+				return DriveHang
+			}
+			P = Q
 		}
 		if len(P) == 0 {
 			// nothing parked and not done: either a hang, or somebody sleeps on the
